@@ -24,4 +24,5 @@ Confs_ar == {Conf(HC_ar, <<"a", "r">>, "asap", 2)}
 NoDoors == {}
 AllDoors == {"kill", "lost", "late", "stop"}
 LateOnly == {"late"}
+KillStop == {"kill", "stop"}
 =============================================================================
